@@ -166,6 +166,24 @@ func c09Positions() []c09Pos {
 		{"response.examples", func(d J, s string) {
 			at(d, "paths", "/things/{id}", "post", "responses", "200")["examples"] = J{"application/json": J{"name": s}, "text/plain": s}
 		}},
+		// enum values: they end up in string literals, in the NAMES of generated constants and in their doc comments;
+		// for these positions identifiers are erased from the comparison as well (the code must keep its shape)
+		{"property.enum value", func(d J, s string) {
+			p := at(d, "definitions", "Thing", "properties", "name")
+			for _, k := range []string{"default", "pattern", "example", "minLength", "maxLength"} {
+				delete(p, k)
+			}
+			delete(at(d, "definitions", "Thing"), "example")
+			p["enum"] = A{s, "other"}
+		}},
+		{"definition.enum value", func(d J, s string) { at(d, "definitions")["Kind"] = J{"type": "string", "enum": A{"first", s}} }},
+		{"parameter.enum value(query)", func(d J, s string) {
+			p := param(1)(d)
+			for _, k := range []string{"default", "pattern", "minLength", "maxLength", "format"} {
+				delete(p, k)
+			}
+			p["enum"] = A{s, "x"}
+		}},
 		{"securityDefinition.description", func(d J, s string) { at(d, "securityDefinitions", "key")["description"] = s }},
 		{"securityDefinition.description(oauth2)", func(d J, s string) { at(d, "securityDefinitions", "oauth")["description"] = s }},
 		{"scope.description", func(d J, s string) { at(d, "securityDefinitions", "oauth", "scopes")["read"] = s }},
@@ -186,7 +204,9 @@ func c09Hostile() []scalar {
 
 // astNorm parses a Go file and prints it with comments dropped and every string/char literal and
 // struct tag replaced by a placeholder.
-func astNorm(path string) (string, error) {
+func astNorm(path string) (string, error) { return astNormMode(path, false) }
+
+func astNormMode(path string, loose bool) (string, error) {
 	fset := token.NewFileSet()
 	f, err := parser.ParseFile(fset, path, nil, 0) // comments are not even attached
 	if err != nil {
@@ -202,6 +222,10 @@ func astNorm(path string) (string, error) {
 			if t.Tag != nil {
 				t.Tag.Value = "`_`"
 			}
+		case *ast.Ident:
+			if loose {
+				t.Name = "_"
+			}
 		}
 		return true
 	})
@@ -216,11 +240,19 @@ func astNorm(path string) (string, error) {
 	return out, nil
 }
 
+// looseNorm: for positions whose text becomes part of identifiers (enum values -> constant names) the
+// identifiers are erased too: the files must keep the same declarations, statements and expressions in shape.
+var c09Loose bool
+
+func isLoosePosition(pos string) bool { return strings.Contains(pos, "enum value") }
+
 var rxConcat = regexp.MustCompile(`"_"(\s*\+\s*"_")+`)
 var rxSpaces = regexp.MustCompile(`[ \t]+`)
 
 // treeNorm returns file -> normalised AST text for every .go file below root.
-func treeNorm(root string) (map[string]string, map[string]string) {
+func treeNorm(root string) (map[string]string, map[string]string) { return treeNormMode(root, false) }
+
+func treeNormMode(root string, loose bool) (map[string]string, map[string]string) {
 	out := map[string]string{}
 	errs := map[string]string{}
 	_ = filepath.Walk(root, func(p string, info os.FileInfo, err error) error {
@@ -228,7 +260,7 @@ func treeNorm(root string) (map[string]string, map[string]string) {
 			return nil
 		}
 		rel, _ := filepath.Rel(root, p)
-		n, err := astNorm(p)
+		n, err := astNormMode(p, loose)
 		if err != nil {
 			errs[rel] = err.Error()
 			return nil
@@ -275,7 +307,7 @@ func RunC09(tier, replay string) int {
 	if tier == "thorough" {
 		targets = []string{"server", "client", "cli", "model", "model+tags"}
 	}
-	r.Rule = "carrier spec with neutral text in 54 free-text positions (info, contact, license, host, basePath, externalDocs descriptions and urls at 4 levels, tag, operation, parameter descriptions/defaults/patterns per location, response and header descriptions/defaults, schema/property titles, descriptions, defaults, examples, patterns, security definition and scope descriptions); one of 27 hostile strings (comment terminators, quotes, backticks, backslashes, newlines/CR, code-injection payloads, template and format verbs, U+2028, BOM, NUL) placed in ONE position at a time (position pairs in the thorough tier) x targets; generated by the real command with --name; if generation succeeds every file must parse and its AST with comments, string/char literals and struct tags erased must equal the neutral rendering's (same files, same declarations, imports, statements); the neutral rendering itself must build. distinct = (position, hostile string, target); non-trivial = generation succeeded and ASTs were compared"
+	r.Rule = "carrier spec with neutral text in 57 free-text positions (info, contact, license, host, basePath, externalDocs descriptions and urls at 4 levels, tag, operation, parameter descriptions/defaults/patterns per location, response and header descriptions/defaults, schema/property titles, descriptions, defaults, examples, patterns, security definition and scope descriptions); one of 27 hostile strings (comment terminators, quotes, backticks, backslashes, newlines/CR, code-injection payloads, template and format verbs, U+2028, BOM, NUL) placed in ONE position at a time (position pairs in the thorough tier) x targets; generated by the real command with --name; if generation succeeds every file must parse and its AST with comments, string/char literals and struct tags erased must equal the neutral rendering's (same files, same declarations, imports, statements); the neutral rendering itself must build. distinct = (position, hostile string, target); non-trivial = generation succeeded and ASTs were compared"
 	r.Assume = []string{"go/parser and go/printer are trusted", "equal erased ASTs + a building neutral rendering imply a building hostile rendering (only literal contents differ)", "--skip-validation is passed so that hostile text in url/email/pattern positions reaches the templates; a generation error is an accepted outcome"}
 	s := NewScratch("C09")
 	defer s.Close()
@@ -365,7 +397,7 @@ func RunC09(tier, replay string) int {
 			nfail = true
 			return
 		}
-		n, errs := treeNorm(dir)
+		n, errs := treeNormMode(dir, isLoosePosition(k.p))
 		if len(errs) > 0 {
 			r.HarnessError("neutral comparand does not parse for %s / %s: %v", k.t, k.p, errs)
 			nfail = true
@@ -396,7 +428,7 @@ func RunC09(tier, replay string) int {
 			r.CaseKeyed(key, sample, false, "generation-refused")
 			return
 		}
-		n, errs := treeNorm(dir)
+		n, errs := treeNormMode(dir, isLoosePosition(cs.Position))
 		outcome := "same-code"
 		viol := func(kind, file, what string) {
 			outcome = "VIOLATION:" + kind
